@@ -27,6 +27,8 @@ def obligations(ctx, tier):
         out += digits.mul_rows(K, PROP)
         for A in ADTS:
             out += arith.mode_rows(K, PROP, A, "mul", "TT", lambda W, a, b: a * b, "overflow(mul)")
+            from . import c18
+            out += c18.trait_value_rows(K, A, PROP, stems={"mul"})     # num-traits entry points of the same operation
             T = T_(A)
             out += core.g_row(K, PROP, inh(A, "unchecked_mul"), arith.reps(A, "TT", arith.unchecked_expect(A, lambda W, a, b: a * b)))
             out += core.g_row(K, PROP, tr(A, OPS + "Mul", [T], "mul"),
